@@ -28,11 +28,15 @@ mod verif_c17 {
         items: [u32; 3],
         front: usize,
         back: usize,
+        // number of items handed out so far (= front + back); kept separately so that "exhausted or not" stays a concrete
+        // fact for CBMC when the number of calls is concrete, whatever the (symbolic) mix of next / next_back is
+        taken: usize,
     }
     impl Iterator for MockIter {
         type Item = u32;
         fn next(&mut self) -> Option<u32> {
-            if self.front + self.back < self.n {
+            if self.taken < self.n {
+                self.taken += 1;
                 self.front += 1;
                 Some(self.items[self.front - 1])
             } else {
@@ -42,7 +46,8 @@ mod verif_c17 {
     }
     impl DoubleEndedIterator for MockIter {
         fn next_back(&mut self) -> Option<u32> {
-            if self.front + self.back < self.n {
+            if self.taken < self.n {
+                self.taken += 1;
                 self.back += 1;
                 Some(self.items[self.n - self.back])
             } else {
@@ -52,26 +57,25 @@ mod verif_c17 {
     }
     impl ExactSizeIterator for MockIter {
         fn len(&self) -> usize {
-            self.n - self.front - self.back
+            self.n - self.taken
         }
     }
 
     // @harness id=C17 tier=quick timeout=2400 mem=10
-    // @bounds inner iterator of 0..=3 symbolic items, 3 calls of next()/next_back() in symbolic order: same items in the same order, len() passes through, position advances by exactly one per item and not at all on None (finishing on exhaustion: see c17_iter_exhaustion_finishes)
+    // @bounds inner iterator of 3 symbolic items, 3 calls of next()/next_back() in symbolic order: same items in the same order, len() passes through, position advances by exactly one per item (wrapping u64 start position); exhaustion (None: no count, finish according to the finish behaviour) is c17_iter_exhaustion_finishes
     #[kani::proof]
     #[kani::unwind(6)]
     #[kani::stub(crate::state::AtomicPosition::allow, never_allow)]
     //@STUBS std now noterm nomulti norender rlany noweight
     fn c17_iterator_transparent() {
-        let n: usize = kani::any();
-        kani::assume(n <= 3);
+        let n: usize = 3;
         let items: [u32; 3] = kani::any();
         let p0: u64 = kani::any();
         let pb = bar(p0, ProgressFinish::AndLeave);
         // a finished bar: exhaustion must not touch it (and no lock traffic in this harness)
         pb.state.lock().unwrap().state.set_status_done();
-        let mut it = ProgressBarIter { it: MockIter { n, items, front: 0, back: 0 }, progress: pb };
-        let mut model = MockIter { n, items, front: 0, back: 0 };
+        let mut it = ProgressBarIter { it: MockIter { n, items, front: 0, back: 0, taken: 0 }, progress: pb };
+        let mut model = MockIter { n, items, front: 0, back: 0, taken: 0 };
         let mut expect = p0;
         let mut k = 0;
         while k < 3 {
@@ -85,8 +89,8 @@ mod verif_c17 {
             assert!(pos_of(&it.progress) == expect);
             k += 1;
         }
-        kani::cover!(n == 3 && expect == p0.wrapping_add(3));
-        kani::cover!(n == 0);
+        kani::cover!(expect == p0.wrapping_add(3) && it.it.front == 1);
+        kani::cover!(p0 == u64::MAX);
         std::mem::forget(it);
     }
 
@@ -101,7 +105,7 @@ mod verif_c17 {
         kani::assume(n <= 1);
         let leave: bool = kani::any();
         let pb = bar(5, if leave { ProgressFinish::AndLeave } else { ProgressFinish::Abandon });
-        let mut it = ProgressBarIter { it: MockIter { n, items: [7, 8, 9], front: 0, back: 0 }, progress: pb };
+        let mut it = ProgressBarIter { it: MockIter { n, items: [7, 8, 9], front: 0, back: 0, taken: 0 }, progress: pb };
         if n == 1 {
             assert!(it.next() == Some(7));
             assert!(!it.progress.is_finished());
